@@ -367,3 +367,79 @@ theorem C08_routedQuery_has_shape (m : SModel) (pa : PreAgg) (q : Query) (tn gs 
     rfl
 
 end SideVerif
+
+namespace SideVerif
+open Sql Cal Reagg
+
+theorem RQuery.body_congr (a b : RQuery) (hk : a.keys = b.keys) (ha : a.aggs = b.aggs) (hf : a.filt = b.filt) (rows : List Row) :
+    a.body rows = b.body rows := by
+  simp [RQuery.body, hk, ha, hf]
+
+/-- **End to end on the routing model's own statements** (partial: one SUM measure with an expression, a rollup with a time
+key, one requested granularity other than the rollup's, stored dimensions, no filters): the rows of `routedQuery` over
+the rows of `matQuery` are a permutation of the rows of the base-table statement, for every table. -/
+theorem C08_model_routed_rows_sum_partial (m : SModel) (pa : PreAgg) (q : Query) (tn gs g mn tref mref : String) (G P : Gran)
+    (d : Dim) (ms : Measure) (e : Expr) (refs : List String)
+    (ht : pa.timeDim = some tn) (hg : pa.gran = some gs) (hn1 : tn ≠ "") (hn2 : gs ≠ "") (hP : Gran.ofStr? gs = some P)
+    (hd : m.dim? tn = some d)
+    (hgne : g ≠ "") (hgg : (g == gs) = false) (hG : Gran.ofStr? g = some G) (hcompat : Gen.compat G P = true)
+    (hparsed : q.dims.map parseDimRef = (tref, some g) :: refs.map fun r => (r, none)) (htref : afterFirstDot tref = tn)
+    (hstored : ∀ dn ∈ pa.dims, (m.dim? dn).isSome)
+    (hrefs : ∀ r ∈ refs, afterFirstDot r ∈ pa.dims)
+    (hmeas : pa.measures = [mn]) (hms : m.measure? mn = some ms) (hagg : ms.agg = .sum) (hsql : ms.sql = some e) (hstar : ms.star = false)
+    (hmet : q.metrics = [mref]) (hmref : afterFirstDot mref = mn) (hfil : q.filters = [])
+    (hnodup : ((tn ++ "_" ++ gs) :: pa.dims).Nodup) (hraw : (mn ++ "_raw") ∉ (tn ++ "_" ++ gs) :: pa.dims)
+    (rows : List Row) :
+    let dimsOf : List (String × Expr) := pa.dims.filterMap fun dn => (m.dim? dn).map fun d => (dn, rawExpr d.sqlExpr)
+    let s : RollupShape := { ta := tn ++ "_" ++ gs, te := rawExpr d.sqlExpr, P := P, raw := mn ++ "_raw", dims := dimsOf }
+    let sel : List (String × Expr) := (refs.map afterFirstDot).filterMap fun dn => (m.dim? dn).map fun d => (dn, rawExpr d.sqlExpr)
+    let rq : Requested := { G := some G, qa := tn ++ "__" ++ g, sel := sel }
+    (RQuery.body (routedQuery m pa q) (RQuery.body (matQuery m pa) rows)).Perm
+      (RQuery.body { table := m.source, keys := s.Kd rq, aggs := [(.agg .sum (rawExpr e), mn)], filt := [] } rows) := by
+  intro dimsOf s sel rq
+  -- names of the stored dimensions survive the lookup
+  have fm_names : ∀ l : List String, (∀ dn ∈ l, (m.dim? dn).isSome) →
+      (l.filterMap fun dn => (m.dim? dn).map fun d => (dn, rawExpr d.sqlExpr)).map (·.1) = l := by
+    intro l hl
+    induction l with
+    | nil => rfl
+    | cons x xs ih =>
+      obtain ⟨dx, hdx⟩ := Option.isSome_iff_exists.mp (hl x (List.mem_cons_self ..))
+      simp only [List.filterMap_cons, hdx, Option.map_some, List.map_cons]
+      rw [ih (fun y hy => hl y (List.mem_cons_of_mem _ hy))]
+  have hdimnames : dimsOf.map (·.1) = pa.dims := fm_names pa.dims hstored
+  have hselnames : sel.map (·.1) = refs.map afterFirstDot :=
+    fm_names (refs.map afterFirstDot) (by
+      intro dn hdn
+      obtain ⟨r, hr, rfl⟩ := List.mem_map.mp hdn
+      exact hstored _ (hrefs r hr))
+  -- the three statements in canonical form
+  have hmk : (matQuery m pa).keys = s.K1 := C08_matQuery_has_shape m pa tn gs P d ht hg hn1 hn2 hP hd (mn ++ "_raw")
+  have hma : (matQuery m pa).aggs = [(.agg .sum (rawExpr e), mn ++ "_raw")] := by
+    simp [matQuery, hmeas, hms, hagg, hsql, hstar]
+  have hmf : (matQuery m pa).filt = [] := rfl
+  have hrk : (routedQuery m pa q).keys = s.K2 rq := by
+    have := C08_routedQuery_has_shape m pa q tn gs g G tref sel refs ht hg hgne hgg hG hparsed htref hselnames.symm
+      (mn ++ "_raw") (rawExpr d.sqlExpr)
+    rw [this]
+    simp [RollupShape.K2, s, rq]
+  have hra : (routedQuery m pa q).aggs = [(.agg .sum (.col (mn ++ "_raw")), mn)] := by
+    simp [routedQuery, hmet, hmref, hms, hagg]
+  have hrf : (routedQuery m pa q).filt = [] := by simp [routedQuery, hfil]
+  rw [RQuery.body_congr (matQuery m pa) { table := m.source, keys := s.K1, aggs := [(.agg .sum (rawExpr e), s.raw)] } hmk hma hmf rows]
+  rw [RQuery.body_congr (routedQuery m pa q) { table := .table (pa.tableName m), keys := s.K2 rq, aggs := [(.agg .sum (.col s.raw), mn)], filt := [] } hrk hra hrf]
+  apply C08_routed_rows_are_base_rows_sum_partial s rq (rawExpr e) mn m.source (.table (pa.tableName m))
+  · show (s.ta :: dimsOf.map (·.1)).Nodup
+    rw [hdimnames]; exact hnodup
+  · show s.raw ∉ s.ta :: dimsOf.map (·.1)
+    rw [hdimnames]; exact hraw
+  · intro x hx
+    obtain ⟨dn, hdn, hx'⟩ := List.mem_filterMap.mp hx
+    obtain ⟨r, hr, rfl⟩ := List.mem_map.mp hdn
+    exact List.mem_filterMap.mpr ⟨afterFirstDot r, hrefs r hr, hx'⟩
+  · intro G' hG'
+    have : G' = G := by simpa [rq] using hG'.symm
+    subst this
+    exact hcompat
+
+end SideVerif
